@@ -61,6 +61,9 @@ def run_shard(prop, seed, sh, tmpdir):
         if eng == "miri" and "big_cap" not in params:
             # the interpreter is ~10^4 times slower: no large-order strata
             params["big_cap"] = params.get("max_order", 8)
+            params.setdefault("huge_every", 0)
+            params.setdefault("huge_per_100k", 0)
+            params.setdefault("pollute_every", 0)
         for k, v in sorted(params.items()):
             args += ["-p", f"{k}={v}"]
         argv, env = engines.command(eng, args, cpus=job.get("cpus"), miri_seed=job.get("miri_seed"), miri_cpus=job.get("miri_cpus"))
